@@ -953,4 +953,80 @@ theorem preserve_define (T : Tables) (w : World) (d : ClassDecl) (hadm : w.findC
   · exact Or.inl h
   · exact Or.inr ⟨⟨d.name, rfl⟩, c, hc⟩
 
+
+/-! ### what a class is computed from: refinement to `pureOf` -/
+
+/-- every class of the world is what `pureOf` says, from some fuel on -/
+def PureInv (T : Tables) (env : Name → Option ClassDecl) (w : World) : Prop :=
+  ∀ n cr, w.findClass n = some cr → ∃ f, ∀ f', f ≤ f' → pureOf T env f' n = some cr.pure
+
+theorem pureOf_none (T : Tables) (env : Name → Option ClassDecl) (f : Nat) (n : Name) (h : env n = none) :
+    pureOf T env f n = none := by
+  cases f with
+  | zero => rfl
+  | succ f => simp [pureOf, h]
+
+theorem chain_agrees (T : Tables) (env : Name → Option ClassDecl) (w : World) (hinv : PureInv T env w)
+    (l : List Name) (hcons : ∀ m ∈ l, env m ≠ none → w.findClass m ≠ none) :
+    ∃ F, ∀ f', F ≤ f' → l.filterMap (pureOf T env f') = l.filterMap (fun n => (w.findClass n).map (·.pure)) := by
+  induction l with
+  | nil => exact ⟨0, fun _ _ => rfl⟩
+  | cons m l ih =>
+    obtain ⟨F, hF⟩ := ih (fun m' h => hcons m' (List.mem_cons_of_mem _ h))
+    cases hc : w.findClass m with
+    | none =>
+      have henv : env m = none := by
+        false_or_by_contra
+        rename_i hne
+        exact hcons m List.mem_cons_self hne hc
+      refine ⟨F, fun f' hf' => ?_⟩
+      simp only [List.filterMap_cons, pureOf_none T env f' m henv, hc, Option.map_none, hF f' hf']
+    | some cr =>
+      obtain ⟨f, hf⟩ := hinv m cr hc
+      refine ⟨max F f, fun f' hf' => ?_⟩
+      simp only [List.filterMap_cons, hf f' (Nat.le_trans (Nat.le_max_right _ _) hf'), hc, Option.map_some,
+        hF f' (Nat.le_trans (Nat.le_max_left _ _) hf')]
+
+theorem pureInv_define (T : Tables) (env : Name → Option ClassDecl) (w : World) (d : ClassDecl)
+    (hadm : w.findClass d.name = none) (hcons : Consistent env w (.define d)) (hinv : PureInv T env w) :
+    PureInv T env (defineClass T w d) := by
+  have hname : (pureDefine T (chainOf w d) d).decl.name = d.name := by rw [pureDefine_decl]
+  intro n cr hfind
+  by_cases hn : n = d.name
+  · subst hn
+    have hnew := findClass_layout_new w (pureDefine T (chainOf w d) d) (by rw [hname]; exact hadm)
+    rw [hname] at hnew
+    unfold defineClass at hfind
+    rw [hnew] at hfind
+    cases hfind
+    obtain ⟨F, hF⟩ := chain_agrees T env w hinv d.mro.tail hcons.2
+    refine ⟨F + 1, fun f' hf' => ?_⟩
+    obtain ⟨g, rfl⟩ : ∃ g, f' = g + 1 := ⟨f' - 1, by omega⟩
+    simp only [pureOf, hcons.1, Option.map_some, hF g (by omega)]
+    rfl
+  · unfold defineClass at hfind
+    rw [findClass_layout_ne w _ n (by rw [hname]; exact hn)] at hfind
+    exact hinv n cr hfind
+
+theorem pureInv_step (T : Tables) (env : Name → Option ClassDecl) (w : World) (op : Op)
+    (hadm : Admissible w op) (hcons : Consistent env w op) (hinv : PureInv T env w) : PureInv T env (step T w op) := by
+  cases op with
+  | define d => exact pureInv_define T env w d hadm hcons hinv
+  | inst n c cfg => exact fun m cr h => hinv m cr (by rwa [step, findClass_instantiate] at h)
+  | setprop i p k v =>
+    have := (records_mutation T w (.setprop i p k v) (Or.inl ⟨i, p, k, v, rfl⟩)).1
+    exact fun m cr h => hinv m cr (by simpa only [World.findClass, this] using h)
+  | addEnum i p m' =>
+    have := (records_mutation T w (.addEnum i p m') (Or.inr ⟨i, p, m', rfl⟩)).1
+    exact fun m cr h => hinv m cr (by simpa only [World.findClass, this] using h)
+
+theorem pureInv_run (T : Tables) (env : Name → Option ClassDecl) (ops : List Op) (w : World)
+    (hadm : AdmissibleRun T w ops) (hcons : ConsistentRun T env w ops) (hinv : PureInv T env w) :
+    PureInv T env (run T w ops) := by
+  induction ops generalizing w with
+  | nil => exact hinv
+  | cons op ops ih =>
+    simp only [run, List.foldl_cons]
+    exact ih _ hadm.2 hcons.2 (pureInv_step T env w op hadm.1 hcons.1 hinv)
+
 end Frappy.Klass
